@@ -157,9 +157,12 @@ type linCfg struct {
 	reqs    [][]V
 	opts    CaseOpts
 	pattern bool // register a (hookable) matching function on g
+	// domPattern: register a (hookable) domain matching function on g (a domain model)
+	domPattern bool
 }
 
 var probeHook atomic.Value // func()
+var dmfHook atomic.Value   // func(): called inside the domain matching function
 
 func probeFn(args ...interface{}) (interface{}, error) {
 	if f, ok := probeHook.Load().(func()); ok && f != nil {
@@ -217,7 +220,7 @@ func newLin(c *Ctx, cfg *linCfg, mfHook *atomic.Value) *linSess {
 			}
 		}
 	}
-	if cfg.pattern {
+	if cfg.pattern || cfg.domPattern {
 		for _, a := range uni {
 			for _, b := range uni {
 				res := "b:0"
@@ -241,6 +244,15 @@ func newLin(c *Ctx, cfg *linCfg, mfHook *atomic.Value) *linSess {
 	}
 	se.AddFunction("probe", probeFn)
 	c.W.Op("init", "ok")
+	if cfg.domPattern {
+		ok := se.AddNamedDomainMatchingFunc("g", "keyMatch", func(x, y string) bool {
+			if f, ok := dmfHook.Load().(func()); ok && f != nil {
+				f()
+			}
+			return matchFns["keyMatch"](x, y)
+		})
+		c.W.Op("adddmf g keyMatch", proto.Bool(ok))
+	}
 	if cfg.pattern {
 		ok := se.AddNamedMatchingFunc("g", "keyMatch", func(x, y string) bool {
 			if f, ok := mfHook.Load().(func()); ok && f != nil {
@@ -318,6 +330,9 @@ func (ls *linSess) finish(c *Ctx, cfg *linCfg, what string) {
 		if cfg.pattern {
 			fresh.AddNamedMatchingFunc("g", "keyMatch", matchFns["keyMatch"])
 		}
+		if cfg.domPattern {
+			fresh.AddNamedDomainMatchingFunc("g", "keyMatch", matchFns["keyMatch"])
+		}
 		_, _ = fresh.AddPoliciesEx(cloneRules(pp))
 		_, _ = fresh.AddGroupingPoliciesEx(cloneRules(gp))
 		for i, q := range cfg.reqs {
@@ -363,7 +378,7 @@ func opsText(ops []EOp) string {
 }
 
 func runC13(c *Ctx) {
-	c.Rule = "concurrent histories recorded on the real SyncedEnforcer (auto-saving recording adapter, invocation/response stamps from one atomic counter) on a plain RBAC model with a custom matcher function and on a pattern-matching model: (a) schedules forced through the library's own callbacks — a primary call (LoadPolicy at the end of its first phase, Enforce inside a custom matcher function, Enforce inside the role manager's matching function, AddPolicy/UpdatePolicy inside the adapter) during which every sequence of <= 2 secondary calls over a 12-call alphabet is started and runs to completion or until it queues on the lock; (b) seeded random schedules of 2-4 goroutines x <= 5 calls with callback-induced delays; every history ends with sequential probes (GetPolicy, GetGroupingPolicy, all requests) and is decided by the Lean checker Lin.check against the enforcer model (LoadPolicy read as its two phases, finding D19); on the implementation: decisions after quiescence = a fresh enforcer given the listed rules, listed rules = store unless a LoadPolicy overlapped a change; non-trivial = a history with overlapping calls; distinct = history"
+	c.Rule = "concurrent histories recorded on the real SyncedEnforcer (auto-saving recording adapter, invocation/response stamps from one atomic counter) on a plain RBAC model with a custom matcher function, on a pattern-matching model and on a domain model with a domain matching function: (a) schedules forced through the library's own callbacks — a primary call (LoadPolicy at the end of its first phase, Enforce inside a custom matcher function, Enforce inside the role manager's matching function or domain matching function, AddPolicy/UpdatePolicy inside the adapter) during which every sequence of <= 2 secondary calls over a 12-call alphabet is started and runs to completion or until it queues on the lock; (b) seeded random schedules of 2-4 goroutines x <= 5 calls with callback-induced delays; every history ends with sequential probes (GetPolicy, GetGroupingPolicy, all requests) and is decided by the Lean checker Lin.check against the enforcer model (LoadPolicy read as its two phases, finding D19); on the implementation: decisions after quiescence = a fresh enforcer given the listed rules, listed rules = store unless a LoadPolicy overlapped a change; non-trivial = a history with overlapping calls; distinct = history"
 	probeM := And(Call2("probe", PTok(0), RTok(0)), G2("g", RTok(0), PTok(0)), Eq(RTok(1), PTok(1)), Eq(RTok(2), PTok(2)))
 	msPlain := NewMSpec().AddR("r", "sub", "obj", "act").AddP("p", "sub", "obj", "act").AddG("g", 2).AddE("e", effAllow).AddM("m", "r", "p", probeM)
 	plain := &linCfg{name: "plain", ms: msPlain, opts: CaseOpts{OraUniverse: []string{"carol", "bob", "admin", "alice", "data1", "data2", "read", "write"}},
@@ -376,7 +391,26 @@ func runC13(c *Ctx) {
 		alines: []mem.Line{memLine("p", "book_admin", "data1", "read"), memLine("p", "/pen/1", "data2", "read"), memLine("g", "/book/*", "book_admin"), memLine("g", "/book/1", "reader"), memLine("g", "/pen/1", "reader")},
 		reqs:   [][]V{{VS("/book/1"), VS("data1"), VS("read")}, {VS("/pen/1"), VS("data1"), VS("read")}, {VS("/pen/1"), VS("data2"), VS("read")}}}
 
+	// a domain model with a pattern domain: the manager of a concrete domain that has no rule of its own is
+	// derived on the fly from the pattern domains
+	domM := And(G3("g", RTok(0), PTok(0), RTok(1)), Eq(RTok(1), PTok(1)), Eq(RTok(2), PTok(2)), Eq(RTok(3), PTok(3)))
+	msDom := NewMSpec().AddR("r", "sub", "dom", "obj", "act").AddP("p", "sub", "dom", "obj", "act").AddG("g", 3).AddE("e", effAllow).AddM("m", "r", "p", domM)
+	domain := &linCfg{name: "domain-pattern", ms: msDom, domPattern: true, opts: CaseOpts{OraUniverse: []string{"*", "d1", "d3", "alice", "bob", "carol", "admin", "data1", "read"}},
+		alines: []mem.Line{memLine("p", "admin", "d1", "data1", "read"), memLine("p", "admin", "d3", "data1", "read"), memLine("g", "alice", "admin", "*"), memLine("g", "bob", "admin", "d1")},
+		reqs:   [][]V{{VS("alice"), VS("d3"), VS("data1"), VS("read")}, {VS("alice"), VS("d1"), VS("data1"), VS("read")}, {VS("bob"), VS("d3"), VS("data1"), VS("read")}, {VS("bob"), VS("d1"), VS("data1"), VS("read")}}}
+
 	alphabet := func(cfg *linCfg) []EOp {
+		if cfg.domPattern {
+			return []EOp{
+				{Kind: "enf", Req: cfg.reqs[0]}, {Kind: "enf", Req: cfg.reqs[1]}, {Kind: "enf", Req: cfg.reqs[2]},
+				{Kind: "add", Sec: "g", PType: "g", Rule: []string{"bob", "admin", "*"}},
+				// (no removal of grouping rules here: with a domain matching function that is finding D15)
+				{Kind: "rm", Sec: "p", PType: "p", Rule: []string{"admin", "d3", "data1", "read"}},
+				{Kind: "add", Sec: "p", PType: "p", Rule: []string{"bob", "d3", "data1", "read"}},
+				{Kind: "load"},
+				{Kind: "obs", Args: []string{"pol", "g", "g"}},
+			}
+		}
 		if cfg.pattern {
 			return []EOp{
 				{Kind: "enf", Req: cfg.reqs[0]}, {Kind: "enf", Req: cfg.reqs[1]},
@@ -410,7 +444,7 @@ func runC13(c *Ctx) {
 	}
 	var mfHook atomic.Value
 	mfHook.Store(func() {})
-	for _, cfg := range []*linCfg{plain, pattern} {
+	for _, cfg := range []*linCfg{plain, pattern, domain} {
 		alpha := alphabet(cfg)
 		var seqs [][]int
 		for i := range alpha {
@@ -440,6 +474,15 @@ func runC13(c *Ctx) {
 			primaries = append(primaries, "load", "add-adapter")
 			for qi := range cfg.reqs {
 				primaries = append(primaries, fmt.Sprintf("enforce-matchfn:%d:1", qi), fmt.Sprintf("enforce-matchfn:%d:2", qi))
+			}
+		}
+		if cfg.domPattern {
+			primaries = primaries[:0:0]
+			primaries = append(primaries, "load")
+			for qi := range cfg.reqs {
+				for tr := 1; tr <= 3; tr++ {
+					primaries = append(primaries, fmt.Sprintf("enforce-dmatchfn:%d:%d", qi, tr))
+				}
 			}
 		}
 		for _, primFull := range primaries {
@@ -477,6 +520,9 @@ func runC13(c *Ctx) {
 				case "enforce-matchfn":
 					mfHook.Store(hook)
 					primary = EOp{Kind: "enf", Req: cfg.reqs[qi]}
+				case "enforce-dmatchfn":
+					dmfHook.Store(hook)
+					primary = EOp{Kind: "enf", Req: cfg.reqs[qi]}
 				case "add-adapter":
 					ls.a.OnWrite = func(string) { hook() }
 					if cfg.pattern {
@@ -493,6 +539,7 @@ func runC13(c *Ctx) {
 				ls.a.OnLoad, ls.a.OnWrite = nil, nil
 				probeHook.Store(func() {})
 				mfHook.Store(func() {})
+				dmfHook.Store(func() {})
 				what := fmt.Sprintf("%s: during %s (%s): %s", cfg.name, primFull, primary.linLine(), opsText(second))
 				ls.finish(c, cfg, what)
 				c.Count("forced="+prim, 1)
@@ -527,6 +574,7 @@ func runC13(c *Ctx) {
 			ls.a.OnWrite = func(string) { yield() }
 			probeHook.Store(yield)
 			mfHook.Store(yield)
+			dmfHook.Store(yield)
 			var wg sync.WaitGroup
 			gate := make(chan struct{})
 			for t := range progs {
@@ -544,6 +592,7 @@ func runC13(c *Ctx) {
 			ls.a.OnLoad, ls.a.OnWrite = nil, nil
 			probeHook.Store(func() {})
 			mfHook.Store(func() {})
+			dmfHook.Store(func() {})
 			var parts []string
 			for _, p := range progs {
 				parts = append(parts, "["+opsText(p)+"]")
